@@ -3,6 +3,7 @@ concrete-length loops without invariant are unrolled."""
 import ast
 import z3
 from .values import *   # noqa: F401,F403
+from .engine import sync_ghost
 from .engine import State, fresh_like
 from .npmodel import LAZY
 
@@ -93,7 +94,7 @@ def eval_inv(ex, inv, st, extra):
         out.append((i, ast.unparse(a), ex.truth(ex.evs(a, loc), loc)))
     st.heap, st.ver = loc.heap, loc.ver
     st.pc[:] = loc.pc        # facts introduced while evaluating spec text (count instances, enumerations) are axioms
-    st.ghost = loc.ghost
+    sync_ghost(st, loc.ghost)
     return out
 
 
